@@ -57,6 +57,16 @@ for d in demos:
     demo_tests |= set(re.findall(r"^func (Test\w+)\(", open(os.path.join(wt, d)).read(), re.M))
 suite_fail = sorted(f for f in fails if f not in KNOWN_BAD and f not in demo_tests)
 demo_fail_with = sorted(f for f in fails if f in demo_tests)
+# the repository's own timing tests occasionally fail when all 16 cores are busy with
+# other checks: a failure counts only if it repeats in three further isolated runs
+flaky = []
+for tname in list(suite_fail):
+    rr = sh("go test -vet=off -count=3 -run '^%s$' ./... 2>&1" % tname)
+    if rr.returncode == 0:
+        suite_fail.remove(tname)
+        flaky.append(tname)
+if flaky:
+    meta["suite_flakes_under_load_passing_3_of_3_alone"] = flaky
 meta["suite_failures_with_change"] = suite_fail
 meta["demo_fails_with_change"] = demo_fail_with
 # (3) without the change
